@@ -75,6 +75,8 @@ fn push_inner(t: &mut Tape, i: Inner) {
 #[kani::proof]
 #[kani::unwind(12)]
 #[kani::stub(<crate::message::rpc::Error as crate::message::ReadXml>::read_xml, crate::message::rpc::error::verif_error::stub_read_xml)]
+#[kani::stub(crate::message::rpc::Errors::new, crate::message::rpc::error::verif_error::stub_errors_new)]
+#[kani::stub(crate::message::rpc::Errors::push, crate::message::rpc::error::verif_error::stub_errors_push)]
 fn c08_load_configuration_reply() {
     use_reply_tables();
     let items: [Inner; N_INNER] = [Inner::Ok; N_INNER].map(|_| any_inner());
